@@ -362,6 +362,71 @@ pub fn drive_bumpvec<'b, 'c, E: Elem, B: BumpAllocatorTypedScope<'b> + Clone>(ct
                     }
                 }
             }
+            K_FLATTEN => {
+                // into_flattened (C16): a vector of arrays becomes a vector of elements, same elements, same order,
+                // capacity = array length x old capacity
+                let t = op.a[0] as usize % vs.len();
+                if !ids_budget_ok(4) {
+                    continue;
+                }
+                if op.a[1] % 3 == 0 {
+                    // arrays of length zero of a sized element type: nothing to hold, capacity 0 (not "unlimited")
+                    let k = 1 + op.a[2] as usize % 5;
+                    let n = op.a[3] as usize % (k + 1);
+                    let out = ctx.call(&op, false, || {
+                        let mut z = BumpVec::<[E; 0], B>::try_with_capacity_in(k, bump.clone()).map_err(drop)?;
+                        for _ in 0..n {
+                            z.try_push([]).map_err(drop)?;
+                        }
+                        let flat = z.into_flattened();
+                        let r = (flat.len(), flat.capacity());
+                        // it holds no elements; not running its destructor keeps a wrong capacity from being acted on
+                        std::mem::forget(flat);
+                        Ok(r)
+                    });
+                    if let Outcome::Ok((len, cap)) = out {
+                        let want = if E::ZST { usize::MAX } else { 0 };
+                        if (ctx.on.c16 || ctx.on.c08) && (len != 0 || cap != want) {
+                            ctx.viol(if ctx.on.c16 { "C16/flatten-capacity" } else { "C08/flatten-capacity" }, format!("into_flattened of {n} zero-length arrays (capacity {k}): len {len}, capacity {cap} (expected 0 and {want})"));
+                        }
+                        ctx.stats.probe("c16.flatten_zero_length_arrays");
+                    }
+                    continue;
+                }
+                let v = vs.swap_remove(t);
+                let m = ms.swap_remove(t);
+                ps.swap_remove(t);
+                let spare = op.a[2] as usize % 3;
+                let k = m.len() / 2 + spare;
+                let out = ctx.call(&op, false, || {
+                    let mut pairs = BumpVec::<[E; 2], B>::try_with_capacity_in(k, bump.clone()).map_err(drop)?;
+                    let mut it = v.into_iter();
+                    while let Some(a) = it.next() {
+                        match it.next() {
+                            Some(b) => pairs.try_push([a, b]).map_err(drop)?,
+                            None => drop(a),
+                        }
+                    }
+                    let cap2 = pairs.capacity();
+                    Ok((pairs.into_flattened(), cap2))
+                });
+                if let Outcome::Ok((flat, cap2)) = out {
+                    let m2: Vec<u32> = m[..m.len() / 2 * 2].to_vec();
+                    if ctx.on.c16 || ctx.on.c08 {
+                        let class = if ctx.on.c16 { "C16/flatten-contents" } else { "C08/conversion-contents" };
+                        if vals_of(&flat) != m2 {
+                            ctx.viol(class, format!("into_flattened of {} pairs: elements or order changed", m2.len() / 2));
+                        }
+                        if !E::ZST && flat.capacity() != cap2 * 2 {
+                            ctx.viol(if ctx.on.c16 { "C16/flatten-capacity" } else { "C08/flatten-capacity" }, format!("into_flattened: capacity {} of pairs became {} elements", cap2, flat.capacity()));
+                        }
+                    }
+                    ctx.stats.probe("c16.flatten");
+                    vs.push(flat);
+                        ms.push(m2);
+                        ps.push(Promise::default());
+                }
+            }
             K_CLONE => {
                 // BumpVec::clone / IntoIter::clone (both go through FixedBumpVec::from_init)
                 let t = op.a[0] as usize % vs.len();
@@ -736,6 +801,69 @@ pub fn drive_fixed<'b, E: Elem, B: BumpAllocatorTypedScope<'b> + Clone>(ctx: &mu
                     ctx.stats.probe("convert.fixed_vec_roundtrip");
                     vs.push(fv);
                     ms.push(m);
+                }
+            }
+            K_FLATTEN => {
+                // into_flattened (C16): a vector of arrays becomes a vector of elements, same elements, same order,
+                // capacity = array length x old capacity
+                let t = op.a[0] as usize % vs.len();
+                if !ids_budget_ok(4) {
+                    continue;
+                }
+                if op.a[1] % 3 == 0 {
+                    // arrays of length zero of a sized element type: nothing to hold, capacity 0 (not "unlimited")
+                    let k = 1 + op.a[2] as usize % 5;
+                    let n = op.a[3] as usize % (k + 1);
+                    let out = ctx.call(&op, false, || {
+                        let mut z = FixedBumpVec::<[E; 0]>::try_with_capacity_in(k, bump).map_err(drop)?;
+                        for _ in 0..n {
+                            z.try_push([]).map_err(drop)?;
+                        }
+                        let flat = z.into_flattened();
+                        let r = (flat.len(), flat.capacity());
+                        // it holds no elements; not running its destructor keeps a wrong capacity from being acted on
+                        std::mem::forget(flat);
+                        Ok(r)
+                    });
+                    if let Outcome::Ok((len, cap)) = out {
+                        let want = if E::ZST { usize::MAX } else { 0 };
+                        if (ctx.on.c16 || ctx.on.c08) && (len != 0 || cap != want) {
+                            ctx.viol(if ctx.on.c16 { "C16/flatten-capacity" } else { "C08/flatten-capacity" }, format!("into_flattened of {n} zero-length arrays (capacity {k}): len {len}, capacity {cap} (expected 0 and {want})"));
+                        }
+                        ctx.stats.probe("c16.flatten_zero_length_arrays");
+                    }
+                    continue;
+                }
+                let v = vs.swap_remove(t);
+                let m = ms.swap_remove(t);
+                let spare = op.a[2] as usize % 3;
+                let k = m.len() / 2 + spare;
+                let out = ctx.call(&op, false, || {
+                    let mut pairs = FixedBumpVec::<[E; 2]>::try_with_capacity_in(k, bump).map_err(drop)?;
+                    let mut it = v.into_iter();
+                    while let Some(a) = it.next() {
+                        match it.next() {
+                            Some(b) => pairs.try_push([a, b]).map_err(drop)?,
+                            None => drop(a),
+                        }
+                    }
+                    let cap2 = pairs.capacity();
+                    Ok((pairs.into_flattened(), cap2))
+                });
+                if let Outcome::Ok((flat, cap2)) = out {
+                    let m2: Vec<u32> = m[..m.len() / 2 * 2].to_vec();
+                    if ctx.on.c16 || ctx.on.c08 {
+                        let class = if ctx.on.c16 { "C16/flatten-contents" } else { "C08/conversion-contents" };
+                        if vals_of(&flat) != m2 {
+                            ctx.viol(class, format!("into_flattened of {} pairs: elements or order changed", m2.len() / 2));
+                        }
+                        if !E::ZST && flat.capacity() != cap2 * 2 {
+                            ctx.viol(if ctx.on.c16 { "C16/flatten-capacity" } else { "C08/flatten-capacity" }, format!("into_flattened: capacity {} of pairs became {} elements", cap2, flat.capacity()));
+                        }
+                    }
+                    ctx.stats.probe("c16.flatten");
+                    vs.push(flat);
+                        ms.push(m2);
                 }
             }
             K_CLONE => {
@@ -1638,7 +1766,8 @@ fn try_with_op<'b, B: MutBumpAllocatorTypedScope<'b> + BumpAllocatorCore + TryWi
                 }
                 let now = positions(&*bump);
                 if ctx.on.c15 {
-                    let bound = std::mem::size_of::<Result<[u8; N], u32>>() + std::mem::align_of::<Result<[u8; N], u32>>() - 1 + (min_align - 1);
+                    // a zero-sized value is "final contents of size 0": only minimum-alignment padding may be consumed
+                    let bound = if N == 0 { min_align - 1 } else { std::mem::size_of::<Result<[u8; N], u32>>() + std::mem::align_of::<Result<[u8; N], u32>>() - 1 + (min_align - 1) };
                     if now.1 == mark.cur {
                         let delta = now.2 - alloc_before;
                         if delta > bound {
@@ -1680,7 +1809,8 @@ fn try_with_op<'b, B: MutBumpAllocatorTypedScope<'b> + BumpAllocatorCore + TryWi
             break;
         }
     }
-    match op.a[0] % 4 {
+    match op.a[0] % 5 {
+        4 => go::<B, 0>(ctx, bump, op, mark, alloc_before, min_align, blobs),
         0 => go::<B, 5>(ctx, bump, op, mark, alloc_before, min_align, blobs),
         1 => go::<B, 48>(ctx, bump, op, mark, alloc_before, min_align, blobs),
         2 => go::<B, 200>(ctx, bump, op, mark, alloc_before, min_align, blobs),
@@ -1783,6 +1913,9 @@ pub fn finish<E: Elem>(ctx: &mut Ctx) {
         }
         if zst_live != 0 {
             ctx.viol("C06/leak", format!("{zst_live} zero-sized elements were never dropped"));
+        }
+        if ctx.on.c07 && ctx.had_failure && (!live.is_empty() || zst_live != 0) {
+            ctx.viol("C07/leak-after-failure", format!("{} elements (+{zst_live} zero-sized) were never dropped in a run with a failed allocation", live.len()));
         }
     }
     ctx.stats.add("ledger.clones", clones);
